@@ -66,6 +66,9 @@ impl Prop for C09 {
         o.items_per_slot = 8;
         o.threads = 2;
         vec![
+            // items_per_slot at its maximum with one item more than a full section
+            Case::Bw(c01::big_case(65_537, 65535, 1)),
+            Case::Bb(c02::big_case(65_537, 65535)),
             Case::Bw(bw),
             Case::Bb(c02::Case { input: BbInput { chroms: bb_chroms, unused: vec![], autosql: None }, opts: o, k2_nudged: 0, delay: None }),
         ]
